@@ -401,23 +401,11 @@ fn run_adts(ctx: &Ctx) -> SubReport {
         for pa in [true, false] {
             for rel in [-1i8, 0, 3] {
                 for &fl in &fields {
-                    let hdr = if pa { 7u16 } else { 9 };
-                    // zero-payload frames (declared == header) are excluded while the INV-004 finding is open: start above the header
                     let mut start = 0u16;
                     while start < 8192 {
                         let count = 64u16.min(8192 - start);
-                        // split batches around the header length so that the zero-payload frame sits alone and is skipped
                         if idx % shards == shard {
-                            if start <= hdr && hdr < start + count {
-                                if hdr > start {
-                                    all.push(AdtsBatch { protection_absent: pa, rel, first_len: start, count: hdr - start, fields: fl });
-                                }
-                                if hdr + 1 < start + count {
-                                    all.push(AdtsBatch { protection_absent: pa, rel, first_len: hdr + 1, count: start + count - hdr - 1, fields: fl });
-                                }
-                            } else {
-                                all.push(AdtsBatch { protection_absent: pa, rel, first_len: start, count, fields: fl });
-                            }
+                            all.push(AdtsBatch { protection_absent: pa, rel, first_len: start, count, fields: fl });
                         }
                         idx += 1;
                         start += count;
@@ -428,7 +416,6 @@ fn run_adts(ctx: &Ctx) -> SubReport {
         all.into_iter()
     };
     let mut r = run_enumerated(ctx, "adts_exhaustive", &mk, &eval_adts);
-    r.excluded_by_construction.insert("zero_payload_adts_frame(declared==header)".into(), 2 * 3);
     r.notes.push("all 13-bit declared lengths x protection flag x buffer length in {declared-1, declared, declared+3}".into());
     r
 }
@@ -448,7 +435,7 @@ pub fn def() -> PropertyDef {
                8192 declared lengths x protection flag x buffer length in {len-1,len,len+3}, muxed and read back through the independent reader. \
                Non-trivial = >=2 start codes or an overlapping pattern; ADTS: at least one accepted frame compared",
         assumptions: &[
-            "zero-payload ADTS frames (declared length == header length) are excluded by construction while that finding is open (they panic at finish, C12)",
+            "a zero-payload ADTS frame (declared length == header length) may be rejected or stored as an empty sample; both satisfy the statement",
             "the alphabet {00,01,03,AB} contains every start-code-relevant byte class plus two distinguishable other bytes",
         ],
         subs: vec![
